@@ -122,6 +122,7 @@ def strokes(tracks, t):
         p1 = _pix_to_json(_frame_pixels(tracks, t, labels[0]))
         p2 = _pix_to_json(_frame_pixels(tracks, t, labels[1]))
         out.append((f"two{labels[0]}_{labels[1]}", [a + [b[0]] for a, b in zip(p1, p2)]))
+        out.append((f"both{labels[0]}_{labels[1]}", [a + b for a, b in zip(p1, p2)]))
     return out
 
 
@@ -170,7 +171,8 @@ def enabled_events(tracks, w, kinds=None):
         nid = free_id(tracks)
         tids = used_track_ids(tracks)
         nxt = int(tracks.get_next_track_id())
-        cand_tids = tids + [nxt, nxt + 3]
+        # fresh id, the id just above it (a one-step gap) and a wider gap
+        cand_tids = tids + [nxt, nxt + 1, nxt + 3]
         for t in range(worlds.T):
             pix = None
             if w["seg"]:
@@ -205,7 +207,7 @@ def enabled_events(tracks, w, kinds=None):
         keys = []
         if w["custom"]:
             keys.append(("score", 2.5))
-            keys.append(("score", 7.0))
+            keys.append(("score", 0.0))
         keys.append(("note", 1.0))  # unregistered key
         keys.append(("time", 1))
         keys.append(("track_id", 1))
